@@ -19,7 +19,7 @@ type leaf struct {
 	rel, typ, mutator string
 }
 
-var leaves = []leaf{
+var repoLeaves = []leaf{
 	{"nodes", "ValueNode", "Set"},
 	{"generator/parameter", "Value", "ApplyMessage"},
 	{"generator/parameter", "File", "ApplyMessage"},
@@ -34,7 +34,7 @@ func methodOf(named *types.Named, name string) *types.Func {
 	return nil
 }
 
-func checkVersionedLeaves(c *props.Ctx, rep reporter) {
+func checkVersionedLeaves(c *props.Ctx, rep reporter, leaves []leaf) {
 	p := c.P
 	// VersionData.Increment is the only writer of VersionData.version and adds exactly one
 	nsp := p.SSAPkg("nodes")
@@ -300,6 +300,125 @@ func checkVersionedLeaves(c *props.Ctx, rep reporter) {
 		if checked == 0 {
 			rep.undecide("NODE-1", key+"."+lf.mutator+"#bump", ci.Body[mut].Pos(), "mutator not analysed")
 		}
+		// NODE-10: every accepted update bumps — the only returns of the mutator without a bump are error returns.
+		// A value-equality shortcut (==, reflect.DeepEqual, bytes.Equal) guarding a bump-less return is exactly such a
+		// path: equality of aliased containers (a slice edited in place and re-submitted) or +0/-0 does not mean "unchanged".
+		{
+			fn := ci.Body[mut]
+			var step flow.Step
+			stack := map[*ssa.Function]bool{fn: true}
+			step = func(in ssa.Instruction, cur flow.Vec) []flow.Vec {
+				if isBump(in) {
+					return []flow.Vec{cur.Bump(0)}
+				}
+				if cI, ok := in.(*ssa.Call); ok {
+					cal := flow.Callee(cI)
+					if cal != nil && cal != mut && regMut[cal] {
+						if g := ci.Body[cal]; g != nil && !stack[g] {
+							stack[g] = true
+							r := flow.AllVectors(g, cur, step)
+							delete(stack, g)
+							if len(r) > 0 {
+								return r
+							}
+						}
+					}
+				}
+				return nil
+			}
+			construct := p.FuncName(fn) + "#must-bump"
+			bad := false
+			nRet, nErr := 0, 0
+			for r, vs := range flow.PathVectors(fn, flow.Vec{}, step) {
+				if isErrorReturnC11(r) {
+					nErr++
+					continue
+				}
+				nRet++
+				for v := range vs {
+					if v[0] == 0 {
+						bad = true
+						rep.violate("NODE-10", construct, ssau.PosOf(r),
+							"a path of "+lf.mutator+" returns normally (not an error return) without bumping the version: whatever guards it (an equality / DeepEqual shortcut, a cached comparison) claims the value is unchanged, but equal-looking aliased containers or re-submitted in-place edits are changes — dependents keep serving the output computed from the old content")
+						break
+					}
+				}
+				if bad {
+					break
+				}
+			}
+			if !bad {
+				rep.hold("NODE-10", construct, fn.Pos(), fmt.Sprintf("%d non-error return(s) all behind a version bump, %d error return(s) exempt", nRet, nErr))
+			}
+		}
+		// NODE-11: decode-then-commit — no call that consumes the message is handed a pointer into the live node
+		{
+			fn := ci.Body[mut]
+			construct := p.FuncName(fn) + "#decode-target"
+			recv := fn.Params[0]
+			var msgParams []*ssa.Parameter
+			for _, prm := range fn.Params[1:] {
+				msgParams = append(msgParams, prm)
+			}
+			fromRecv := func(v ssa.Value) bool {
+				return derivesC11(v, func(y ssa.Value) bool { return y == ssa.Value(recv) })
+			}
+			fromMsg := func(v ssa.Value) bool {
+				return derivesC11(v, func(y ssa.Value) bool {
+					for _, m := range msgParams {
+						if y == ssa.Value(m) {
+							return true
+						}
+					}
+					return false
+				})
+			}
+			bad := false
+			nCalls := 0
+			ssau.AllInstrs(fn, func(in ssa.Instruction) {
+				c, ok := in.(*ssa.Call)
+				if !ok || bad {
+					return
+				}
+				cal := flow.Callee(c)
+				if cal != nil && (regMut[cal] || (ssau.RecvNamed(cal) != nil && ssau.RecvNamed(cal).Origin() == named.Origin())) {
+					return // methods of the node itself are covered by the path law above
+				}
+				args := c.Common().Args
+				if c.Common().IsInvoke() {
+					args = append([]ssa.Value{c.Common().Value}, args...)
+				}
+				takesMsg := false
+				for _, a := range args {
+					if fromMsg(a) {
+						takesMsg = true
+					}
+				}
+				if !takesMsg {
+					return
+				}
+				nCalls++
+				for _, a := range args {
+					if fromMsg(a) && !fromRecv(a) {
+						continue
+					}
+					// only a pointer lets the callee write the live value (a copy wrapped in an interface does not)
+					if _, isPtr := flow.StripAll(a).Type().Underlying().(*types.Pointer); !isPtr || !fromRecv(a) {
+						continue
+					}
+					bad = true
+					name := "?"
+					if cal != nil {
+						name = cal.Name()
+					}
+					rep.violate("NODE-11", construct, ssau.PosOf(c),
+						"the message is decoded by "+name+"() straight into memory reachable from the node (the live value) instead of a fresh local: a message rejected half-way leaves the value partly edited with no version bump (dependents stale), and an accepted one mutates a value readers may still hold")
+				}
+			})
+			if !bad {
+				rep.hold("NODE-11", construct, fn.Pos(), fmt.Sprintf("%d call(s) consuming the message, none is given a pointer into the node", nCalls))
+			}
+		}
 		// the getter returns the counter
 		if gb := bodyOf(p.SSA, getter); gb != nil {
 			okG := true
@@ -351,3 +470,64 @@ func pairList(vs []flow.Vec) string {
 }
 
 var _ = token.NoPos
+
+// isErrorReturnC11: the last result is an error that is not the nil constant.
+func isErrorReturnC11(r *ssa.Return) bool {
+	if len(r.Results) == 0 {
+		return false
+	}
+	last := flow.Unspill(r, r.Results[len(r.Results)-1])
+	if !types.Identical(last.Type(), types.Universe.Lookup("error").Type()) {
+		return false
+	}
+	return !flow.IsNilConst(last)
+}
+
+// derivesC11 walks backwards through operands and the contents of local objects.
+func derivesC11(v ssa.Value, pred func(ssa.Value) bool) bool {
+	seen := map[ssa.Value]bool{}
+	var walk func(v ssa.Value) bool
+	walk = func(v ssa.Value) bool {
+		if v == nil || seen[v] {
+			return false
+		}
+		seen[v] = true
+		if pred(v) {
+			return true
+		}
+		if a, ok := v.(*ssa.Alloc); ok {
+			var visit func(addr ssa.Value) bool
+			visit = func(addr ssa.Value) bool {
+				for _, r := range ssau.Refs(addr) {
+					switch y := r.(type) {
+					case *ssa.Store:
+						if y.Addr == addr && walk(y.Val) {
+							return true
+						}
+					case *ssa.FieldAddr:
+						if visit(y) {
+							return true
+						}
+					case *ssa.IndexAddr:
+						if visit(y) {
+							return true
+						}
+					}
+				}
+				return false
+			}
+			return visit(a)
+		}
+		in, ok := v.(ssa.Instruction)
+		if !ok {
+			return false
+		}
+		for _, op := range in.Operands(nil) {
+			if op != nil && *op != nil && walk(*op) {
+				return true
+			}
+		}
+		return false
+	}
+	return walk(v)
+}
